@@ -70,7 +70,7 @@ E0 == [ev |-> "", k |-> K, zero |-> 0, cls |-> "", n |-> 0,
        script |-> "", toks |-> <<>>, ret |-> 0, err |-> "", out |-> <<>>, ridx |-> 0, rlen |-> 0,
        shown |-> <<>>, acc |-> <<>>, errs |-> <<>>, cb |-> 0, plen |-> 0,
        panic |-> 0, opanic |-> 0,
-       saved |-> <<>>, data |-> <<>>, wr |-> <<>>, tiles |-> <<>>,
+       saved |-> <<>>, data |-> <<>>, wr |-> <<>>, wrok |-> 1, tiles |-> <<>>,
        savelen |-> 0, readlen |-> 0, writelen |-> 0, blen |-> 0, cap |-> 0, reserved |-> 0]
 
 WithObs(r, nsi, nri, nwi, ncap, nd, nsl) ==
